@@ -384,3 +384,63 @@ theorem roundF64_le_of_representable (q r r' : Rat) (h : roundF64 q = some r) (h
     (hle : q ≤ r') : r ≤ r' := by
   have := roundF64_ge_of_representable (-q) (-r) (-r') (roundF64_neg_some q r h) (roundF64_neg_some r' r' hr') (by grind)
   grind
+
+theorem roundHalfEven_below_half (q : Rat) (N : Int) (h1 : (N : Rat) ≤ q) (h2 : q < (N : Rat) + 1 / 2) :
+    roundHalfEven q = N := by
+  have hf : q.floor = N := by
+    have a1 : N ≤ q.floor := Rat.le_floor_iff.2 h1
+    have a2 : q.floor < N + 1 := Rat.floor_lt_iff.2 (by
+      rw [Rat.intCast_add]
+      have : ((1 : Int) : Rat) = 1 := rfl
+      grind)
+    omega
+  unfold roundHalfEven
+  simp only [hf]
+  have : q - (N : Rat) < 1 / 2 := by grind
+  simp only [this, if_true]
+
+/-- between `math.MaxFloat64` and the overflow threshold everything rounds down to `math.MaxFloat64` -/
+theorem roundF64_gap_pos (q : Rat) (h1 : maxF64 ≤ q) (h2 : q < overflowF64) : roundF64 q = some maxF64 := by
+  have hq : 0 < q := Std.lt_of_lt_of_le (by decide +kernel : (0 : Rat) < maxF64) h1
+  unfold roundF64
+  rw [roundFloat_pos' 53 (-1074) 1024 q hq]
+  obtain ⟨s1, s2⟩ := fexp1_spec 53 (by decide) q hq
+  obtain ⟨g1, g2, g3⟩ := fexpC_ge 53 (-1074) q
+  have h1023 : pow2 1023 ≤ q := Rat.le_trans (by decide +kernel : pow2 1023 ≤ maxF64) h1
+  have hF : 971 ≤ fexp1 53 q := by
+    have c2 := lt_mul_pow2_of_div_lt s2
+    rw [← pow2_add] at c2
+    have := pow2_lt_iff.1 (Std.lt_of_le_of_lt h1023 c2)
+    omega
+  have hF2 : fexp1 53 q ≤ 971 := by
+    have c1 := mul_pow2_le_of_le_div s1
+    rw [← pow2_add] at c1
+    have c3 : q < pow2 1024 := Std.lt_trans h2 (by decide +kernel)
+    have := pow2_lt_iff.1 (Std.lt_of_le_of_lt c1 c3)
+    omega
+  have hEF : fexpC 53 (-1074) q = 971 := by omega
+  rw [hEF]
+  have hz1 : ((2 ^ 53 - 1 : Int) : Rat) ≤ q / pow2 971 := le_div_pow2 h1
+  have hz2 : q / pow2 971 < ((2 ^ 53 - 1 : Int) : Rat) + 1 / 2 :=
+    div_pow2_lt (Std.lt_of_lt_of_le h2 (by decide +kernel))
+  rw [roundHalfEven_below_half _ _ hz1 hz2]
+  have : ¬ (((2 ^ 53 - 1 : Int) : Rat) * pow2 971 ≥ pow2 1024) := by decide +kernel
+  simp only [this, if_false]
+  rfl
+
+/-- `roundF64` overflows exactly from `2^1024 - 2^970` on -/
+theorem roundF64_none_iff (q : Rat) : roundF64 q = none ↔ (overflowF64 ≤ q ∨ q ≤ -overflowF64) := by
+  constructor
+  · intro h
+    apply Classical.byContradiction
+    intro hn
+    have hlt : q < overflowF64 := Rat.not_le.1 (fun h' => hn (Or.inl h'))
+    have hgt : -overflowF64 < q := Rat.not_le.1 (fun h' => hn (Or.inr h'))
+    by_cases c1 : maxF64 ≤ q
+    · rw [roundF64_gap_pos q c1 hlt] at h; cases h
+    · by_cases c2 : q ≤ -maxF64
+      · have := roundF64_neg_some _ _ (roundF64_gap_pos (-q) (by grind) (by grind))
+        rw [Rat.neg_neg, h] at this; cases this
+      · obtain ⟨r, hr, _⟩ := roundF64_no_overflow q (by grind) (by grind)
+        rw [h] at hr; cases hr
+  · exact roundF64_overflow q
